@@ -9,6 +9,9 @@ CHECKS = {
  'C01': dict(level='exploration', technique='property-based testing: generated workflow programs x outcome assignments x generated schedules on a deterministic engine simulation, membership oracle = all-orders reference semantics (Hypothesis)',
    text='Generated-input search: thousands of generated (program, input, action-result assignment, delivery schedule) cases per run are executed by the real engine under a harness-owned scheduler; each run must quiesce in a final state, raise only declared error types at every event boundary (including errors the scheduler would swallow), and its (state, task states, output) must be a member of the set of outcomes computed by an independent all-orders reference semantics. Exploration, not proof: absence of violations is bounded by the grammar, sizes and number of schedules reported in the evidence.',
    design='3 C01', note=ASSUME + '; reference semantics mv/ref/wfsem.py is trusted'),
+ 'C19': dict(level='exploration', engine='urlprobe', technique='property-based testing over a constructed URL catalogue (Hypothesis sampling in quick, exhaustive product in thorough) with a by-construction oracle and a differential oracle against the HTTP client\'s own URL parser',
+   text='Every URL is built from parts whose denoted address is known by construction (textual encodings of addresses inside/outside the denied networks, names of a stub resolver zone) under six denied_cidrs/allowed_hosts configurations; validate_url must refuse exactly what the policy in the property statement refuses, HTTPAction.run and WebhookPublisher.publish must invoke the HTTP client iff the URL was not refused, and for accepted URLs the host requests/urllib3 would connect to must not denote a denied address (free-form mutated authorities included). Thorough enumerates the whole catalogue product.',
+   design='3 C19', note='DNS replaced by a stub zone inside mistral.utils.egress (numeric literals still go through libc getaddrinfo); HTTP client stubbed; redirects and DNS rebinding are outside the property'),
 }
 NA = []
 def main():
@@ -40,6 +43,7 @@ def main():
                 'baseline_off_cmd': 'cd /repo && /venv/bin/python -m pytest -ra -q -p no:cacheprovider --timeout=900 --continue-on-collection-errors',
                 'source_commits': [], 'add_only': True},
       'engines': [
+        {'name': 'urlprobe', 'path': 'mv/props/c19.py', 'serves_properties': ['C19'], 'kind_free_text': 'catalogue-driven URL generator with stub resolver and stubbed HTTP client'},
         {'name': 'simworld', 'path': 'mv/sim.py', 'serves_properties': sorted(p for p in CHECKS if CHECKS[p].get('engine', 'simworld') == 'simworld'),
          'kind_free_text': 'deterministic single-process Mistral: real engine + DB, harness-owned event scheduling, virtual clock; driven by Hypothesis'},
       ],
